@@ -44,3 +44,24 @@ Theorem C04_specx_holds_of_model :
   forall sc : escen, spec_C04x sc (eobs_of_model (model_obs sc)) = true.
 Proof. exact spec_C04x_model_lemma. Qed.
 Print Assumptions C04_specx_holds_of_model.
+
+From Flyt Require BatchConc.
+From Flyt Require Import PrepPostFatal.
+
+(* the part of "nil only if every phase on the path succeeded" that holds for EVERY table (partial
+   nodes, batch nodes, flows of any nesting), oracle, release order, fuel and start state: an error
+   returned by a prep or post callback is the last callback of the run, and the run fails *)
+Theorem C04_prep_post_error_fatal :
+  forall (o : oracle) rel (tbl : table) fuel s n s' oc,
+    run o (BatchConc.gated_exec o rel) tbl fuel s n = Some (s', oc) ->
+    exists evs, log s' = log s ++ evs /\ pp_fatal evs = true /\
+                (existsb pp_err evs = true -> exists e, oc = Fail e).
+Proof. exact prep_post_error_fatal_lemma. Qed.
+Print Assumptions C04_prep_post_error_fatal.
+
+(* the predicate the case files apply since round 6 (spec_C04x and the clause above) holds of the
+   model's observation of EVERY scenario *)
+Theorem C04_specy_holds_of_model :
+  forall sc : escen, spec_C04y sc (eobs_of_model (model_obs sc)) = true.
+Proof. exact spec_C04y_model_lemma. Qed.
+Print Assumptions C04_specy_holds_of_model.
